@@ -369,7 +369,15 @@ def _bitop(kind, a, b):
         return wrap(z3.If(bt == 1, st + 1 - 2 * (st % 2), st))
     # anything else: uninterpreted bit operation (sound abstraction: nothing is known about it except functionality)
     f = {"and": BAND, "or": BOR, "xor": BXOR}[kind]
-    return wrap(f(as_int_term(a), as_int_term(b)))
+    ta, tb = as_int_term(a), as_int_term(b)
+    r = f(ta, tb)
+    if paths.active():
+        # true instance facts about the real operators on single bits (all that the bit-level code here relies on)
+        bits = z3.And(ta >= 0, ta <= 1, tb >= 0, tb <= 1)
+        val = {"and": z3.If(z3.And(ta == 1, tb == 1), 1, 0), "or": z3.If(z3.Or(ta == 1, tb == 1), 1, 0),
+               "xor": z3.If(ta == tb, 0, 1)}[kind]
+        paths.current().assume(z3.Implies(bits, r == val))
+    return wrap(r)
 
 
 BAND = z3.Function("bit_and", z3.IntSort(), z3.IntSort(), z3.IntSort())
@@ -523,13 +531,15 @@ class SSeq(Sym):
     """Immutable sequence value: length term + z3 array Int -> elem.  `is_list` only affects
     Python-level type tests (tuple vs list)."""
 
-    __slots__ = ("n", "a", "kind", "pytype")
+    __slots__ = ("n", "a", "kind", "pytype", "elem_pred")
 
-    def __init__(self, n, a, kind, pytype=tuple):
+    def __init__(self, n, a, kind, pytype=tuple, elem_pred=None):
         self.n = n if z3.is_expr(n) else z3.IntVal(n)
         self.a = a
         self.kind = kind
         self.pytype = pytype
+        # optional element invariant, instantiated on demand at every read (quantifier-free alternative to a forall)
+        self.elem_pred = elem_pred
 
     def __repr__(self):
         return f"SSeq[{self.kind.name}](len={self.n})"
@@ -560,7 +570,10 @@ class SSeq(Sym):
 
     def at(self, i):
         """Element at a *normalised* (non-negative, in range) index term, no bounds obligation."""
-        return self.kind.wrapf(select(self.a, as_int_term(i)))
+        t = select(self.a, as_int_term(i))
+        if self.elem_pred is not None and paths.active() and not paths._has_var(t):
+            paths.current().assume(self.elem_pred(t))
+        return self.kind.wrapf(t)
 
     def __getitem__(self, i):
         if isinstance(i, slice):
@@ -636,7 +649,7 @@ class SSeq(Sym):
         return paths.current().branch(self.n != 0)
 
     def as_pytype(self, t):
-        return SSeq(self.n, self.a, self.kind, t)
+        return SSeq(self.n, self.a, self.kind, t, self.elem_pred)
 
 
 def _clip(t, n):
